@@ -4,6 +4,7 @@ import vlib
 sys.path.insert(0, os.path.join(vlib.VERIF, 'tools'))
 import gen_c03_progs as G
 import gen_c03_abi as A
+import gen_c03_twins as T
 
 IFACES = ['interp', 'mirinterp', 'gen', 'lazy', 'bb']
 # every shape tools/gen_c03_progs.py knows (`alloca` in inlinable functions is back since C04's fixes of MIR_link's
@@ -436,6 +437,73 @@ def run_mixed(chk, exe, found_limit=2):
     return found
 
 
+# ---------------------------------------------------------------- prototype twins (round 3, wave 6)
+
+def result_words(o):
+    """the entry results of an answer 'I r r ... | log=...'"""
+    return o.split('|')[0].split()[1:]
+
+
+def run_twins(chk, exe, found_limit=2):
+    """Programs of tools/gen_c03_twins.py: in ONE context several calls through prototypes identical except for one
+    detail (block size / class, argument type, result type, number of (variable) arguments), to MIR functions through
+    their address and to native C functions, in both orders (entry drv_f, then drv_r; drv_r, then drv_f; each alone):
+    whatever an engine caches per call shape must be keyed by every detail.  Compared: the interfaces with each other
+    (all five + assignments mixing them over the two modules) and every result with the value computed by the
+    generator."""
+    rng = chk.rng('ifaces-twins')
+    found = 0
+    for k in range(70 if chk.tier == 'quick' else 1500):
+        prog = T.program(rng)
+        d = prog['desc']
+        opt = rng.choice([0, 1, 2, 2, 3])
+        path = write_prog(prog['text'], 'twins')
+        specs = ['%s:0,1' % i for i in IFACES]
+        for _ in range(2):
+            specs.append('/'.join('%s:%d' % (rng.choice(['interp', 'gen', 'lazy', 'bb']), m) for m in range(2)))
+        sv = lambda: rng.choice([0, 1, -1, 255, 2 ** 31 - 1, -2 ** 31, 2 ** 40 + 3, rng.randint(-10 ** 12, 10 ** 12), rng.getrandbits(64) - 2 ** 63])
+        av = [(sv(), sv()) for _ in range(2)]
+        ents = [('drv_f', False) + av[0], ('drv_r', True) + av[1]]
+        orders = [ents, ents[::-1], ents[:1], ents[1:]]
+        for ft in prog['features']:
+            chk.dist('twin_families', ft)
+        chk.dist('twin_calls_per_program', len(d['calls']))
+        chk.dist('twin_callee_kinds', '+'.join(sorted(set(c[0] if c[0] != 'mir' else 'mir-' + c[2] for c in d['calls']))))
+        if k == 0:
+            chk.sample('prototype twins: ' + ' | '.join('%s: %s' % (c['name'], A.sig_text(c)) for c in d['callees'])[:500])
+        done = False
+        for order in orders:
+            cs = ['call %s ii %d %d' % (n, a0, a1) for n, rev, a0, a1 in order]
+            exp = [str(T.expected(d, rev, a0, a1)) for n, rev, a0, a1 in order]
+            outs = run_prog(exe, path, specs, cs, opt, timeout=120)
+            for sp, o in zip(specs, outs):
+                chk.count((prog['text'], sp, tuple(cs), opt), nontrivial=True)
+                chk.dist('twin_runs', sp.split(':')[0] if '/' not in sp else 'mixed')
+            dis = disagree(outs)
+            if dis is not None:
+                pair = settle(chk, exe, path, specs, cs, opt, outs, dis)
+                if pair is None:
+                    continue
+                report(chk, exe, (prog, specs, cs, opt, pair, outs))
+                found += 1
+                done = True
+                break
+            bad = [i for i, o in enumerate(outs) if GEN_FAILED not in o and result_words(o) != exp]
+            if bad:
+                i = bad[0]
+                sig = 'twins-expected:' + hashlib.sha1((prog['text'] + '|'.join(cs)).encode()).hexdigest()[:12]
+                chk.finding(sig, dict(kind='ifaces', text=prog['text'], specs=[specs[i]], calls=cs, opt=opt, outs=[outs[i]], expected=exp,
+                                      original_features=prog['features']),
+                            'prototype twins under [%s]: results %s, expected %s (calls: %s; every interface gives the same answer)' % (
+                                specs[i], ' '.join(result_words(outs[i]))[:160], ' '.join(exp), ' ; '.join(cs)))
+                found += 1
+                done = True
+                break
+        if found >= found_limit:
+            break
+    return found
+
+
 # ---------------------------------------------------------------- run
 
 def one_program(chk, exe, rng, k, quick, family='std'):
@@ -608,6 +676,10 @@ def run(chk):
     found += run_abi(chk, exe)
     if found >= 3:
         return True
+    # prototype twins: calls through almost identical prototypes in one context, both orders (~15 s)
+    found += run_twins(chk, exe)
+    if found >= 3:
+        return True
     # histories mixing interfaces across link steps (~10 s)
     found += run_mixed(chk, exe)
     if found >= 3:
@@ -648,4 +720,7 @@ def replay(chk, rp):
     print(rp['text'])
     for s, o in zip(rp['specs'], outs):
         print('%-30s %s' % (s, o))
+    if rp.get('expected') and any(result_words(o) != rp['expected'] for o in outs):
+        print('expected results: %s' % ' '.join(rp['expected']))
+        return 1
     return 1 if disagree(outs) is not None else 0
